@@ -160,6 +160,8 @@ where
         let mut page_address = address & PAGE_MASK;
         let total_length = len + (address - page_address);
         while page_address < total_length {
+            #[cfg(feature = "falcon_verif")]
+            crate::verif::point("paged::set_permissions");
             RC::make_mut(
                 self.pages
                     .entry(page_address)
@@ -189,6 +191,8 @@ where
         let page_address = address & !(PAGE_SIZE as u64 - 1);
         let offset = (address & (PAGE_SIZE as u64 - 1)) as usize;
 
+        #[cfg(feature = "falcon_verif")]
+        crate::verif::point("paged::store_cell");
         if let Some(page) = self.pages.get_mut(&page_address) {
             RC::make_mut(page).store(offset, cell);
             return;
